@@ -469,7 +469,11 @@ fn collect_param_entries(ctx: &FormatContext, params: &LuaParamList) -> Collecte
                 collected.consumed_comment_ranges.push(*range);
             }
             let doc = if param.is_dots() {
-                vec![ir::text("...")]
+                let mut doc = vec![ir::text("...")];
+                if let Some(token) = param.get_name_token() {
+                    doc.push(ir::source_token(token.syntax().clone()));
+                }
+                doc
             } else if let Some(token) = param.get_name_token() {
                 vec![ir::source_token(token.syntax().clone())]
             } else {
@@ -1366,7 +1370,12 @@ fn format_single_arg_call_without_parens(
             .is_single_arg_no_parens()
             .then(|| args_list.get_single_arg_expr())
             .flatten(),
-        SingleArgCallParens::Omit => args_list.get_single_arg_expr(),
+        // `get_single_arg_expr` returns the first string/table argument of *any* argument list:
+        // only a call with exactly one argument may lose its parentheses.
+        SingleArgCallParens::Omit => (args_list.get_args().count() == 1
+            && !node_has_direct_comment_child(args_list.syntax()))
+        .then(|| args_list.get_single_arg_expr())
+        .flatten(),
     }?;
 
     Some(match single_arg {
